@@ -5,7 +5,8 @@ two's-complement words, unbounded integers, exact dyadic floats).
  1. design level: spec/BitVecLaws.tla - the limb operators are model-checked exhaustively over all
     operand pairs at a small width against TLC's native integers and the algebraic laws of Python's
     integer semantics (a = (a//b)*b + a%b, sign of % follows the divisor, shifts, two's complement,
-    nearest-even rounding ...).
+    nearest-even rounding ...); thorough tier also spec/NumOpsLaws.tla (laws relating the operators of
+    NumOps!Expected that are computed by independent routes, over all nat/int type pairs).
  2. binding (code -> spec): one Guppy function per (operator | builtin, operand types, syntactic
     shape: operator, augmented assignment, literal operand on either side, builtin call, truthiness)
     is compiled ONCE from /repo and called on the reference interpreter on anchor x anchor operand
@@ -31,7 +32,8 @@ def laws(ctx):
     import os
     if os.environ.get("VERIF_NUM_NOLAWS"):
         return [{"skipped": "VERIF_NUM_NOLAWS"}]
-    runs = [("BitVecLaws", "BitVecLawsQ.cfg")] if ctx.quick else [("BitVecLaws", "BitVecLawsD.cfg"), ("BitVecLaws", "BitVecLaws.cfg")]
+    runs = [("BitVecLaws", "BitVecLawsQ.cfg")] if ctx.quick else [("BitVecLaws", "BitVecLawsD.cfg"), ("BitVecLaws", "BitVecLaws.cfg"),
+                                                                   ("NumOpsLaws", "NumOpsLaws.cfg")]
     out = []
     for mod, cfg in runs:
         r = ctx.tlc(mod, cfg, env={"JAVA_TOOL_OPTIONS": "-Xmx8g -XX:+UseParallelGC -Xss64m"}, timeout=3000)
@@ -150,27 +152,13 @@ def run(ctx):
 
 
 def replay(ctx, data):
-    import gp
-    import runner
-    from hugr_interp import Interp
-
     for c in data["replay"].get("cases", []):
         if "a" not in c:
             print(c)
             continue
-        mod = gp.load(c["src"])
-        try:
-            pkg = mod.f.compile_function()
-            a, b = eval(c["a"]), eval(c["b"])
-            args = [x for x in (a, b) if x is not None]
-            nparams = c["src"].split("(")[1].split(")")[0].count(":")
-            if nparams == 1:
-                args = [b] if c["form"].startswith("lit_l") else [a]
-            it = Interp(pkg.modules[0])
-            out = it.run("f", [runner.to_interp(x) for x in args])
-            print(c["form"], "a =", a, "b =", b, "| code:", out.get("outputs", out.get("panic")), "| spec (Python):", c["python"])
-        finally:
-            gp.unload(mod)
+        a, b = eval(c["a"]), eval(c["b"])
+        print(c["form"], "a =", a, "b =", b, "| code:", nt.replay_case(c["src"], a, b, c["form"].startswith("lit_l")),
+              "| spec (Python):", c["python"])
 
 
 def selftest(ctx):
